@@ -121,11 +121,12 @@ Proof. unfold pend. now rewrite map_app, concat_app. Qed.
 Lemma pend_one it : pend [it] = ipending it.
 Proof. unfold pend; cbn. apply app_nil_r. Qed.
 
-(* offsets stay inside their buffers; file offsets are non-negative *)
+(* every queued item has something left to send: offsets stay strictly inside their buffers, file ranges are
+   non-empty; file offsets are non-negative *)
 Definition item_wf (it : item B) : Prop :=
   match it with
-  | Buf d off => (off <= blen d)%N
-  | File _ off _ => (0 <= off)%Z
+  | Buf d off => (off < blen d)%N
+  | File _ off rem => (0 <= off)%Z /\ (0 < rem)%Z
   end.
 Definition wf (c : conn B) : Prop := Forall item_wf (wlist c).
 
